@@ -829,6 +829,23 @@ class Sentinels:
         self.n += 1
         return 's%dntX' % self.n        # contains "nt" after a digit; BlotRe "(se)(nt)" does not match it
 
+    CORES = ('sent', 'secret', 'abc', 'axc', '2024', '7', 'me@', 'x', 'a1', 'ab', 'user@example.com')
+
+    def matching(self, regex):
+        """A unique string the redactor's regex matches (the path that prints the regex groups instead of the mask);
+        the unique part sits after the match, outside every group. None when no simple candidate matches."""
+        import re
+        self.n += 1
+        for core in self.CORES:
+            s = '%sQ%dZ' % (core, self.n)
+            try:
+                m = re.search(regex, s)
+            except re.error:
+                return None
+            if m and m.end() <= len(core):
+                return s
+        return None
+
 
 def mark(ses, t, v, sent, omitted_for, redacted, acc, depth=0):
     """Walk value v of declared type t; replace unconstrained strings at omitted / redacted positions by
@@ -838,12 +855,19 @@ def mark(ses, t, v, sent, omitted_for, redacted, acc, depth=0):
     cur = t
     while isinstance(cur, (Alias, Nullable)):
         if isinstance(cur, Alias) and cur.redactor is not None:
-            redacted = True
+            redacted = cur.redactor
         cur = cur.data_type
     k = v[0]
     if k == 's' and isinstance(cur, String):
         if omitted_for or redacted:
-            s = sent.fresh()
+            s = None
+            rx = getattr(redacted, 'regex', None)
+            if rx and sent.n % 2 == 0:
+                s = sent.matching(rx)            # every other redacted string is one the redactor's regex matches
+                if s is not None and not sat_ir({}, cur, ['s', s]):
+                    s = None
+            if s is None:
+                s = sent.fresh()
             if sat_ir({}, cur, ['s', s]):
                 if omitted_for:
                     acc['omitted'].append((s, omitted_for))
@@ -862,7 +886,7 @@ def mark(ses, t, v, sent, omitted_for, redacted, acc, depth=0):
         for a, b in v[2]:
             f = fields[a]
             out.append([a, mark(ses, f.data_type, b, sent, omitted_for or f.omitted_caller,
-                                redacted or f.redactor is not None, acc, depth + 1)])
+                                redacted or f.redactor or False, acc, depth + 1)])
         return ['S', v[1], out]
     if k == 'U':
         dt = ses.built.ir_by_ref[v[1]]
@@ -870,7 +894,7 @@ def mark(ses, t, v, sent, omitted_for, redacted, acc, depth=0):
         if f is None:
             return v
         return ['U', v[1], v[2], mark(ses, f.data_type, v[3], sent, omitted_for or f.omitted_caller,
-                                      redacted or f.redactor is not None, acc, depth + 1)]
+                                      redacted or f.redactor or False, acc, depth + 1)]
     return v
 
 
